@@ -62,6 +62,9 @@ pub enum Case {
     Sequential(Seq),
     /// a sequential prefix, then two clients issue their requests concurrently from two threads
     Concurrent { pre: Vec<CReq>, a: Vec<CReq>, b: Vec<CReq> },
+    /// a sequential prefix, then one client issues the whole batch without waiting for any reply (the requests are
+    /// enqueued in issue order); every reply must be what sequential execution in issue order gives
+    Pipelined { pre: Vec<CReq>, batch: Vec<CReq> },
 }
 
 #[derive(Clone, Debug, Default)]
@@ -99,7 +102,9 @@ impl Prop for C14 {
          document, and sync is toggled. Concurrent variant: after a sequential prefix two clients issue <= 5 requests each from two \
          OS threads; the recorded invoke/response history must be linearizable with respect to the same model (Wing-Gong search over \
          <= 10 operations), whatever interleaving the OS produced; non-trivial there = the two clients' operations overlapped in time \
-         and at least one write was acknowledged; distinct by serialised case"
+         and at least one write was acknowledged. Pipelined variant: one client enqueues 2..=12 requests without awaiting any reply; \
+         the replies and the final contents must equal sequential execution in issue order (non-trivial = a later request's reply \
+         depends on an earlier write or open/close of the same batch); distinct by serialised case"
             .into()
     }
 
@@ -143,7 +148,8 @@ impl Prop for C14 {
             ]
         };
         let conc = (vec(creq(), 0..=3), vec(creq(), 1..=5), vec(creq(), 1..=5)).prop_map(|(pre, a, b)| Case::Concurrent { pre, a, b });
-        prop_oneof![3 => seq, 1 => conc].boxed()
+        let pipe = (vec(creq(), 0..=3), vec(creq(), 2..=12)).prop_map(|(pre, batch)| Case::Pipelined { pre, batch });
+        prop_oneof![6 => seq, 2 => conc, 1 => pipe].boxed()
     }
 
     fn check(ctx: &mut Ctx, c: &Case) -> Outcome {
@@ -154,6 +160,7 @@ impl Prop for C14 {
                 run(ctx, c, &mut o)
             }
             Case::Concurrent { pre, a, b } => concurrent(ctx, pre, a, b, &mut o),
+            Case::Pipelined { pre, batch } => pipelined(ctx, pre, batch, &mut o),
         };
         verif::set_clock(None);
         if let Err(e) = r {
@@ -778,4 +785,58 @@ fn concurrent(ctx: &mut Ctx, pre: &[CReq], a: &[CReq], b: &[CReq], o: &mut Outco
         );
     }
     Ok(())
+}
+
+// ------------------------------------------------------------------------------------------------
+// pipelined variant: replies arrive in request order and reflect all earlier requests
+
+fn pipelined(ctx: &mut Ctx, pre: &[CReq], batch: &[CReq], o: &mut Outcome) -> R<()> {
+    o.class("pipelined");
+    verif::set_clock(Some(CNOW));
+    let ns = namespace(0).id();
+    let h = act::spawn(Store::memory());
+    let mut model = Mini::default();
+    let res: R<()> = ctx.rt.block_on(async {
+        es(h.import_author(author(0).clone()).await)?;
+        es(h.import_namespace(namespace(0).clone().into()).await)?;
+        for r in pre {
+            let got = real_step(&h, ns, r).await;
+            let want = mini_step(&mut model, r);
+            if got != want {
+                o.fail("C14/concurrent-prefix", format!("sequential prefix: {:?} replied {:?}, model {:?}", r, got, want));
+                return Ok(());
+            }
+        }
+        // join_all polls the futures in order; the first poll of each request enqueues it (the inbox holds 1024 requests),
+        // so the actor sees them in issue order while no reply has been awaited yet
+        let futs: Vec<_> = batch.iter().map(|r| real_step(&h, ns, r)).collect();
+        let got = futures_util::future::join_all(futs).await;
+        let before = model.clone();
+        let mut want = vec![];
+        for r in batch {
+            want.push(mini_step(&mut model, r));
+        }
+        // does some reply depend on an earlier request of the batch? (compare with executing each request alone)
+        let depends = batch.iter().zip(want.iter()).any(|(r, w)| mini_step(&mut before.clone(), r) != *w);
+        if depends {
+            o.nontrivial = true;
+            o.class("pipelined/reply-depends-on-earlier-request-of-the-batch");
+        }
+        o.count("requests_checked_against_model", batch.len() as u64);
+        if got != want {
+            let first = got.iter().zip(want.iter()).position(|(g, w)| g != w).unwrap_or(0);
+            o.fail(
+                "C14/pipelined-replies",
+                format!("batch {:?} issued without awaiting: reply {first} is {:?}, sequential execution in issue order gives {:?} (all replies {:?})", batch, got[first], want[first], got),
+            );
+            return Ok(());
+        }
+        let mut store = es(h.shutdown().await)?;
+        let final_entries = dump(&mut store, ns)?;
+        if final_entries != model.entries.dump() {
+            o.fail("C14/pipelined-contents", format!("after the batch the store holds {} model {}", describe_all(&final_entries), describe_all(&model.entries.dump())));
+        }
+        Ok(())
+    });
+    res
 }
